@@ -151,107 +151,85 @@ def check(ctx):
     if mc is None:
         raise AnalysisError("anchor vanished: ShapedTensor.__make_compatible")
     ctx.touch(mc)
-    old, size = nf.sym("old"), nf.sym("size")
-    shrink = grow = same = False
-    for n in walk_own(mc.node):
-        if isinstance(n, ast.If):
-            t = ast.unparse(n.test)
-            if t == "tensor.shape[dim] > size":
-                for s_ in n.body:
-                    if isinstance(s_, ast.Assign) and isinstance(s_.targets[0], ast.Subscript) and ast.unparse(s_.targets[0]) == "slices[dim]" \
-                            and isinstance(s_.value, ast.Call) and dotted(s_.value.func) == "slice" and len(s_.value.args) == 2:
-                        b = terms.Builder(P, mc, {}, inline_depth=0)
-                        lo = terms.Builder(None, None, {"size": size}).t(ast.parse(ast.unparse(s_.value.args[0]).replace("tensor.shape[dim]", "old"), mode="eval").body)
-                        hi_none = isinstance(s_.value.args[1], ast.Constant) and s_.value.args[1].value is None
-                        shrink = nf.equal(lo, old - size) and hi_none
-            if t == "tensor.shape[dim] < size":
-                pre = None
-                for s_ in n.body:
-                    if isinstance(s_, ast.Assign) and ast.unparse(s_.targets[0]) == "shape[dim]":
-                        pre = terms.Builder(None, None, {"size": size}).t(ast.parse(ast.unparse(s_.value).replace("tensor.shape[dim]", "old"), mode="eval").body)
-                    if isinstance(s_, ast.Return) and isinstance(s_.value, ast.Call) and dotted(s_.value.func) == "torch.cat" \
-                            and isinstance(s_.value.args[0], ast.Tuple) and len(s_.value.args[0].elts) == 2:
-                        a, b_ = s_.value.args[0].elts
-                        zeros_first = isinstance(a, ast.Call) and dotted(a.func) in ("zeros", "torch.zeros") and isinstance(b_, ast.Name) and b_.id == "tensor"
-                        along = len(s_.value.args) > 1 and ast.unparse(s_.value.args[1]) == "dim"
-                        grow = zeros_first and along and pre is not None and nf.equal(pre, size - old)
-    rets = [s_ for s_ in walk_own(mc.node) if isinstance(s_, ast.Return)]
-    same = any(isinstance(r.value, ast.Name) and r.value.id == "tensor" for r in rets)
-    ctx.ob("C13.d", "ShapedTensor.__make_compatible: shrink keeps the tail slice [old - size:]", shrink,
-           "the newest min(old, new) observations (the tail after align(0)) are kept" if shrink else "shrinking does not keep slice(old - size, None) along dim", mc.where)
-    ctx.ob("C13.d", "ShapedTensor.__make_compatible: grow prepends size - old zeros along dim", grow,
-           "" if grow else "growing does not concatenate (zeros(size - old), tensor) in that order along dim: older new slots would not be zero or the newest data would move", mc.where)
-    ctx.ob("C13.d", "ShapedTensor.__make_compatible: equal size returns the tensor unchanged", same, "", mc.where)
+    specs.compare_full(ctx, "C13.d", "ShapedTensor.__make_compatible: shrink keeps the tail slice [old - size:], grow prepends size - old zeros along dim, equal size returns the data unchanged", mc, """
+def spec(tensor, dim, size):
+    if tensor.shape[dim] > size:
+        slices = list(repeat(slice(None), times=tensor.ndim))
+        slices[dim] = slice(tensor.shape[dim] - size, None)
+        return tensor[*slices]
+    elif tensor.shape[dim] < size:
+        shape = list(tensor.shape)
+        shape[dim] = size - tensor.shape[dim]
+        return torch.cat((zeros(tensor, shape=shape), tensor), dim)
+    elif isinstance(tensor, nn.Parameter):
+        return tensor.data
+    else:
+        return tensor
+""", source="the newest min(old, new) observations are the tail after align(0); older new slots are zero", inline_depth=0)
 
     rz = st.methods.get("resize")
-    if rz is not None:
-        ctx.touch(rz)
-        pts = sorted([n for n in walk_own(rz.node) if isinstance(n, ast.If) and isinstance(n.test, ast.Name) and n.test.id == "preserve_tail"], key=lambda n: n.lineno)
-        ok = len(pts) == 2
-        if ok:
-            def val(stmts):
-                return stmts[0].value if stmts and isinstance(stmts[0], ast.Assign) else None
-            sh_t, sh_h, gr_t, gr_h = val(pts[0].body), val(pts[0].orelse), val(pts[1].body), val(pts[1].orelse)
-            env = {"value.shape[dim]": old, "size": size}
-
-            def T_(e):
-                return terms.Builder(None, None, {"size": size}).t(ast.parse(ast.unparse(e).replace("value.shape[dim]", "old"), mode="eval").body) if e is not None else None
-            ok = isinstance(sh_t, ast.Call) and dotted(sh_t.func) == "slice" and nf.equal(T_(sh_t.args[0]), old - size) and ast.unparse(sh_t.args[1]) == "None" \
-                and isinstance(sh_h, ast.Call) and dotted(sh_h.func) == "slice" and ast.unparse(sh_h.args[0]) == "None" and nf.equal(T_(sh_h.args[1]), size)
-
-            def cat_order(e):
-                if isinstance(e, ast.Call) and dotted(e.func) == "torch.cat" and isinstance(e.args[0], ast.Tuple) and len(e.args[0].elts) == 2 and ast.unparse(e.args[1]) == "dim":
-                    return ["fill" if isinstance(x, ast.Call) else "value" for x in e.args[0].elts]
-                return None
-            ok = ok and cat_order(gr_t) == ["fill", "value"] and cat_order(gr_h) == ["value", "fill"]
-        ctx.ob("C13.d", "ShapedTensor.resize: preserve_tail keeps the tail / prepends the fill; otherwise keeps the head / appends", ok, "", rz.where)
+    if rz is None:
+        raise AnalysisError("anchor vanished: ShapedTensor.resize")
+    specs.compare_full(ctx, "C13.d", "ShapedTensor.resize: preserve_tail keeps the tail / prepends size - old fill; otherwise keeps the head / appends; a parameter is resized in place", rz, """
+def spec(value, dim, size, preserve_tail=True, fill=0):
+    if value.shape[dim] > size:
+        slices = list(repeat(slice(None), times=value.ndim))
+        if preserve_tail:
+            slices[dim] = slice(value.shape[dim] - size, None)
+        else:
+            slices[dim] = slice(None, size)
+        data = value[*slices]
+    elif value.shape[dim] < size:
+        shape = list(value.shape)
+        shape[dim] = size - value.shape[dim]
+        if preserve_tail:
+            data = torch.cat((full(value, fill, shape=shape), value), dim)
+        else:
+            data = torch.cat((value, full(value, fill, shape=shape)), dim)
+    else:
+        return value
+    if isinstance(value, nn.Parameter):
+        value.data = data
+        return value
+    else:
+        return data
+""", source="resize docstring", inline_depth=0, erase_validation=True)
     # ---------------- (e) refuse-before-mutate in ShapedTensor.reconstrain
     rc = st.methods.get("reconstrain")
     if rc is None:
         raise AnalysisError("anchor vanished: ShapedTensor.reconstrain")
     ctx.touch(rc)
-    g = CFG(rc.node)
-
-    def is_mut(n):
-        a = n.ast
-        if n.kind != "stmt":
-            return None
-        if isinstance(a, ast.Assign):
-            t = a.targets[0]
-            if isinstance(t, ast.Subscript) and isinstance(t.value, ast.Name) and t.value.id == "constraints":
-                return "constraint"
-            if is_self_attr(t, "__data"):
-                return "data"
-        if isinstance(a, ast.Delete) and any(isinstance(t, ast.Subscript) and isinstance(t.value, ast.Name) and t.value.id == "constraints" for t in a.targets):
-            return "constraint-del"
-        return None
-    muts = [(n, is_mut(n)) for n in g.nodes if is_mut(n)]
-    raises = [n for n in g.nodes if n.kind == "stmt" and isinstance(n.ast, ast.Raise)]
-    ctx.require("C13.e", "refusing raises in ShapedTensor.reconstrain", len(raises), 4)
-    for r in raises:
-        gs = [(ast.unparse(t), lab) for t, lab in g.guards_of(r)]
-        remove_path = ("size is None", "T") in gs and not any(t.startswith("dim not in constraints") and lab == "T" for t, lab in gs)
-        before = [(m, k) for m, k in muts if g.can_follow(m, r)]
-        if remove_path:
-            bad = [k for _, k in before if k == "data"]
-            ctx.ob("C13.e", f"ShapedTensor.reconstrain: remove path never stores data (raise L{r.ast.lineno})", not bad,
-                   "removing a constraint cannot alter data", P.loc(rc, r.ast), None)
+    # the whole decision table: which (dim, size, storage) combinations are refused, which store the constraint, which
+    # reshape the data - returned value, the constraint mapping and the data store are compared with the documented table
+    specs.compare_full(ctx, "C13.e", "ShapedTensor.reconstrain: add / edit / remove decision table (refusals without side effects; add only if compatible with constraints | {dim: size}; remove never touches data; edit reshapes only incompatible data)", rc, """
+def spec(self, dim, size):
+    data, constraints = self.__data, self.__constraints
+    if dim not in constraints:
+        if size is None:
+            raise ValueError("cannot remove a constraint on an unconstrained dim")
+        if self._ignore(data):
+            constraints[dim] = size
+        elif not _constraints_compatible(data, constraints, self.__strict):
+            raise RuntimeError("already invalidated")
+        elif _constraints_compatible(data, constraints | {dim: size}, self.__strict):
+            constraints[dim] = size
         else:
-            ctx.ob("C13.e", f"ShapedTensor.reconstrain: refusal `{ast.unparse(r.ast)[:50]}` has no side effect", not before,
-                   "no constraint or data store precedes the raise" if not before else
-                   f"a {before[0][1]} store (`{ast.unparse(before[0][0].ast)[:40]}`) precedes the refusal: the tensor is left with a half-applied constraint",
-                   P.loc(rc, r.ast), None)
-    # add path: constraint stored only under the compatibility test of the extended mapping
-    add_stores = []
-    for m, k in muts:
-        if k != "constraint":
-            continue
-        gs = [(ast.unparse(t), lab) for t, lab in g.guards_of(m)]
-        if any(t == "dim not in constraints" and lab == "T" for t, lab in gs) and ("self._ignore(data)", "F") in gs:
-            add_stores.append((m, gs))
-    ok = bool(add_stores) and all(any("constraints | {dim: size}" in t and "_constraints_compatible" in t and lab == "T" for t, lab in gs) for _, gs in add_stores)
-    ctx.ob("C13.e", "ShapedTensor.reconstrain: a constraint is added to initialised storage only if data is compatible with constraints | {dim: size}", ok,
-           "", rc.where)
+            raise ValueError("would be invalidated")
+    elif size is None:
+        del constraints[dim]
+        if not self._ignore_or_compatible(data, constraints, self.__strict):
+            raise RuntimeError("already invalidated")
+    elif self._ignore(data):
+        constraints[dim] = size
+    elif data.ndim >= _constraint_dimensionality(constraints, self.__strict) and _constraints_consistent(constraints | {dim: size}, data.ndim):
+        constraints[dim] = size
+        if not _constraints_compatible(data, constraints, self.__strict):
+            self.__data = self.__make_compatible(data, dim, size)
+            data = self.__data
+    else:
+        raise RuntimeError("cannot be made valid")
+    return data
+""", source="reconstrain docstring: add / edit / remove, Raises section", inline_depth=0, keep_raises=True, track_locals=True, erase_validation=True)
     v = st.props.get("valid", {}).get("get")
     b = terms.Builder(P, v, {}, inline_depth=0) if v else None
     ok = False
